@@ -156,11 +156,13 @@ class ReopenEngine(Engine):
         swarm = history_swarm(rng)
         swarm["removals"] = False if rng.random() < 0.8 else swarm["removals"]
         swarm["limit"] = rng.choice([1, 2, 5, 32, 100])
-        swarm["weights"]["set_limit"] = 0  # the limit is enforced at save time: lowering it is C11's business
         swarm["reopen_w"] = rng.choice([1, 2, 4])
         # variant: object information validated against the sources (entries follow moved files,
         # entries of vanished files are dropped at open); information then comes from real analysis only
         swarm["validate_objectdb"] = rng.random() < 0.2
+        swarm["late_enable_objectdb"] = rng.random() < 0.15
+        swarm["weights"]["set_limit"] = 0  # twins diverge once one of them is truncated at save: see the epilogue instead
+        swarm["limit_epilogue"] = rng.random() < 0.3
         if swarm["validate_objectdb"]:
             swarm["removals"] = True
         swarm["oi_w"] = rng.choice([0, 2, 4])
@@ -218,6 +220,8 @@ class ReopenEngine(Engine):
             steps.append(st)
             if st["op"] == "do":
                 model.do({"id": st["cs"]["id"], "desc": st["cs"]["desc"], "ops": st["cs"]["ops"]})
+            elif st["op"] == "set_limit":
+                model.limit = st["limit"]
             elif st["op"] in ("undo", "undo_drop") and model.undo:
                 model.undo_sel(None, drop=st["op"] == "undo_drop")
             elif st["op"] == "undo_sel" and model.undo:
@@ -248,13 +252,22 @@ class ReopenEngine(Engine):
         if swarm.get("validate_objectdb"):
             prefs["validate_objectdb"] = True
             prefs["automatic_soa"] = True
-        A = World(trace["init"], limit=limit, ropefolder=ROPEFOLDER, prefs=prefs, tag="c12a-")
-        B = World(trace["init"], limit=limit, ropefolder=ROPEFOLDER, prefs=prefs, tag="c12b-")
+        late = bool(swarm.get("late_enable_objectdb"))
+        first = dict(prefs, save_objectdb=False) if late else prefs
+        A = World(trace["init"], limit=limit, ropefolder=ROPEFOLDER, prefs=first, tag="c12a-")
+        B = World(trace["init"], limit=limit, ropefolder=ROPEFOLDER, prefs=first, tag="c12b-")
+        if late:
+            # the preference is switched on while the project is open (it is a live preference)
+            for w in (A, B):
+                w.project.set("save_objectdb", True)
+                w.prefs["save_objectdb"] = True
+            out.stats["probe_objectdb_saving_enabled_late"] += 1
         try:
             mA = HistoryModel(TreeModel(A.snapshot()), limit)
             mB = HistoryModel(TreeModel(B.snapshot()), limit)
             prefix = [limit]
             reopened = False
+            limit_changed = False
             since_reopen_ops = 0
             for i, st in enumerate(trace["steps"]):
                 op = st["op"]
@@ -360,7 +373,13 @@ class ReopenEngine(Engine):
                          "msg": "expected = never-closed project, actual = closed-and-reopened project"},
                         where=i,
                     )
-                if ha != hb:
+                if op == "set_limit":
+                    limit_changed = True
+                if ha != hb and limit_changed and len(hb[0]) < len(ha[0]) and ha[0][len(ha[0]) - len(hb[0]):] == hb[0] and ha[1] == hb[1]:
+                    # the limit was lowered: it is enforced when the history is saved, so the twin
+                    # that was saved holds a suffix of what the never-saved twin still holds
+                    out.stats["probe_truncated_at_save"] += 1
+                elif ha != hb:
                     bad = True
                     out.violate(
                         "history_differs_from_never_closed", sig,
@@ -374,6 +393,8 @@ class ReopenEngine(Engine):
                     break
                 if bad:
                     break
+            if swarm.get("limit_epilogue") and not out.violations:
+                self._limit_epilogue(out, B, len(trace["steps"]))
             out.schedules.add(kernel.short_hash([s["op"] for s in trace["steps"]]))
             out.sim_s = B.clock.covered_s()
             out.sample = {"limit": limit, "steps": [_brief(s) for s in trace["steps"][:14]]}
@@ -383,6 +404,35 @@ class ReopenEngine(Engine):
         return out
 
     # ------------------------------------------------------------------
+    def _limit_epilogue(self, out, B, i):
+        """The configured limit is lowered while a longer history exists; it is
+        enforced when the history is saved, so neither the saved nor the reloaded
+        undo list may exceed it (twin A is not involved any more)."""
+        n = len(B.project.history.undo_list)
+        if n < 2:
+            return
+        new_limit = n // 2
+        B.use()
+        B.project.prefs.set("max_history_items", new_limit)
+        B.prefs["max_history_items"] = new_limit
+        out.evals += 1
+        out.stats["probe_limit_lowered_before_save"] += 1
+        try:
+            B.project.close()
+            kept = [c.description for c in B.project.history.undo_list]
+            B.open()
+            loaded = [c.description for c in B.project.history.undo_list]
+        except Exception as e:
+            out.violate("reopen_raised", {"op": "limit_epilogue", "exc": type(e).__name__}, {"step": i, "exc": repr(e)[:300]}, where=i)
+            return
+        if len(loaded) > new_limit or len(kept) > new_limit:
+            out.violate("limit_exceeded_after_reopen", {"op": "limit_epilogue"},
+                        {"step": i, "limit": new_limit, "in_memory_after_save": kept, "reloaded": loaded}, where=i)
+        elif loaded != kept:
+            out.violate("history_lost_on_reopen", {"op": "limit_epilogue", "what": "undo list"},
+                        {"step": i, "before": kept, "after": loaded}, where=i)
+        out.log.add(ev="limit_epilogue", i=i, limit=new_limit, kept=kept)
+
     def _reopen(self, out, B, i, prefix):
         p = B.project
         h_before = realize.history_struct(p)
@@ -395,6 +445,7 @@ class ReopenEngine(Engine):
         except Exception as e:
             out.violate("close_raised", {"op": "reopen", "exc": type(e).__name__}, {"step": i, "exc": repr(e)[:300]}, where=i)
             return False
+        h_before = realize.history_struct(p)  # (saving enforces the limit on the in-memory list as well)
         side = {}
         try:
             side = side_file_views(B)
@@ -417,6 +468,11 @@ class ReopenEngine(Engine):
         if any(_has_nested(cs) for cs in h_before[0] + h_before[1]):
             out.stats["probe_reopen_with_nested_set"] += 1
         ok = True
+        lim = B.project.prefs.get("max_history_items", 100)
+        if len(h_after[0]) > lim:
+            ok = False
+            out.violate("limit_exceeded_after_reopen", {"op": "reopen"},
+                        {"step": i, "limit": lim, "undo_list": [c[1] for c in h_after[0]]}, where=i)
         if h_after != h_before:
             ok = False
             out.violate(
